@@ -93,5 +93,37 @@ TEXT = {
   "note": NOTE,
   "technique": "Coq proof (representation invariant through setters and the decoder IR; 256-value sweep) + render correspondence + panic/watchdog oracle",
  },
+ "C01": {
+  "level": "Theorems C01_wire_roundtrips (every wire type, every value inside MQTT's limits, any suffix - covers the 65 534/65 535-byte strings and all "
+           "variable-byte-integer length classes without enumeration) and C01_frame (the written bytes are one frame, consumed exactly under any delivery, "
+           "dispatched on the packet's own first byte). The field-for-field statement for whole packets (C01_full) is not yet proved; it is decided by the "
+           "round-trip oracle on the implementation and by model/implementation correspondence on every run.",
+  "note": NOTE,
+  "technique": "Coq proof (wire-type round trips, frame layer) + correspondence + accessor-equality/re-encode round-trip oracle",
+ },
+ "C02": {
+  "level": "Theorems C02_framing (for every packet type and value: one frame, minimal remaining length equal to the bytes that follow, accepted by the "
+           "specification's parser) and C02_fields (the specification's field parsers accept and return what the library's field encoders write). Per-packet "
+           "field order, allowed identifiers and presence rules are judged on the implementation by the extracted strict decoder of Spec/Mqtt5.v "
+           "(independent of the library: no shared constant or table).",
+  "note": NOTE + " The specification model is my transcription of the OASIS text; its decoder reads back its own encoder on every generated frame.",
+  "technique": "Coq proof (framing, field-level conformance) + extracted strict specification decoder as judge of WriteTo output",
+ },
+ "C03": {
+  "level": "Theorems C03_ack_short, C03_short_forms (every legal short form, all field values, same reading as the specification), C03_fields (the "
+           "specification's encodings of strings up to 65 535 bytes, minimal vbints, integers, user properties are read back exactly). C03_refuted "
+           "(Findings/) proves the full statement false of the model because of known finding D13; the remaining valid-frame language is decided on the "
+           "implementation with the specification's encoder as generator.",
+  "note": NOTE + " Known finding D13 is listed in KNOWN_FINDINGS.txt and reported as KNOWN-FINDING.",
+  "technique": "Coq proof (short forms, field decoders, refutation witness) + specification-encoder-driven acceptance oracle",
+ },
+ "C09": {
+  "level": "Theorems C09a_* (each field decoder reports a cut strictly inside the field, for every value and interior position; a frame ending before a "
+           "field gives missing data), C09_error_sticks (an error set anywhere is what UnmarshalBinary returns, for every packet type), C09b_mem/_stream "
+           "(5-byte vbint), C09c_bool, C09d_maps/_unknown (the 229 undefined identifiers). Not one statement over whole frames; the oracle covers every "
+           "interior cut of generated frames by the specification's field map.",
+  "note": NOTE,
+  "technique": "Coq proof (per-field rejection, error stickiness through the decoder IR) + specification-driven must-reject oracle",
+ },
 }
 NOT_APPLICABLE = {}
